@@ -168,7 +168,11 @@ impl FixtureDatabase {
                     || filename.starts_with("test_") && filename.ends_with(".py")
                     || filename.ends_with("_test.py")
                 {
-                    files_to_process.push(path.to_path_buf());
+                    // Only regular files (or links to them) can be read: a directory, socket or
+                    // FIFO that merely carries a test-like name would fail or block the scan.
+                    if path.is_file() {
+                        files_to_process.push(path.to_path_buf());
+                    }
                 }
             }
         }
